@@ -65,6 +65,8 @@ enum Sut {
     /// the forked child that ran the case was killed: "abort" (allocation failure under the
     /// address-space limit) or "hang" (alarm)
     NonTerm(&'static str, String),
+    /// the wall-clock backstop fired: no verdict
+    Inconclusive(String),
 }
 
 /// Define `(define-syntax <kw> ...)` and evaluate `(<kw> . args)`.
@@ -163,6 +165,7 @@ fn encode_sut(s: &Sut) -> String {
         Sut::DefOnly => json!({"k": "DefOnly"}),
         Sut::Ok(x) => json!({"k": "Ok", "x": sx_to_json(x)}),
         Sut::NonTerm(h, m) => json!({"k": "NonTerm", "h": h, "m": m}),
+        Sut::Inconclusive(m) => json!({"k": "Inconclusive", "m": m}),
     }
     .to_string()
 }
@@ -223,7 +226,11 @@ fn run_sut_forked<F: Fn(&str) -> Sx>(fresh: bool, def_of: F, args: Option<&Sx>) 
             libc::close(fds[0]);
             let lim = libc::rlimit { rlim_cur: limit, rlim_max: limit };
             libc::setrlimit(libc::RLIMIT_AS, &lim);
-            libc::alarm(CHILD_ALARM_S);
+            // a runaway expansion burns CPU: limit CPU seconds (immune to machine load);
+            // the wall-clock alarm is only a backstop and is reported as inconclusive
+            let cpu = libc::rlimit { rlim_cur: CHILD_ALARM_S as u64, rlim_max: CHILD_ALARM_S as u64 + 5 };
+            libc::setrlimit(libc::RLIMIT_CPU, &cpu);
+            libc::alarm(CHILD_ALARM_S * 30);
             let out = encode_sut(&run_sut(false, def_of, args));
             let b = out.as_bytes();
             let mut off = 0;
@@ -257,7 +264,11 @@ fn run_sut_forked<F: Fn(&str) -> Sx>(fresh: bool, def_of: F, args: Option<&Sx>) 
         });
         if libc::WIFSIGNALED(status) {
             let sig = libc::WTERMSIG(status);
-            let how = if sig == libc::SIGALRM { "hang" } else { "abort" };
+            if sig == libc::SIGALRM {
+                // wall-clock backstop only: says nothing about the SUT on a loaded machine
+                return Sut::Inconclusive(format!("child exceeded {} s of wall-clock time", CHILD_ALARM_S * 30));
+            }
+            let how = if sig == libc::SIGXCPU || sig == libc::SIGKILL { "hang" } else { "abort" };
             return Sut::NonTerm(how, format!("child killed by signal {}", sig));
         }
         match decode_sut(&String::from_utf8_lossy(&buf)) {
@@ -502,6 +513,10 @@ fn check_valid(ctx: &Ctx, kind: &str, journal_payload: Value, spec: &Spec, args:
         None => format!("{}|{}", NO_KNOWN_HANG_FEATURE, how),
     };
     match out {
+        Sut::Inconclusive(m) => {
+            ctx.discard(&format!("inconclusive: {}", m));
+            Outcome::Discard
+        }
         Sut::NonTerm(how, m) => Outcome::fail(
             nonterm_sig(how),
             format!(
@@ -641,6 +656,10 @@ fn check_arbitrary(ctx: &Ctx, kind: &str, journal_payload: Value, def_of: &dyn F
     let out = run_case(ctx, def_of, if run_use { Some(args) } else { None });
     let r = |got: &str| json!({"definition": def_canon.to_string(), "use": make_use("kw", args).to_string(), "edits": ops, "got": got});
     match out {
+        Sut::Inconclusive(m) => {
+            ctx.discard(&format!("inconclusive: {}", m));
+            Outcome::Discard
+        }
         Sut::NonTerm(how, m) => Outcome::fail(
             match &hang {
                 Some(f) => format!("C17|nonterm|{}|{}", f, how),
